@@ -57,7 +57,7 @@ Inductive entry :=
   | Pdf | Cdf | MarginalPdf | MarginalCdf | MarginalIcdf | ConditionalCdf | ConditionalIcdf
   | DrawSampleSeeded | DrawSample | EmpiricalCdf
   | DistPdf | DistCdf | DistIcdf | DistSampleSeeded
-  | IFORM | ISORM | HDC | HDCDefaultGrid | DirectSampling | AndC | OrC
+  | IFORM | IFORMMonteCarlo | ISORM | HDC | HDCDefaultGrid | DirectSampling | AndC | OrC
   | PlotMarginalQuantiles | PlotDependenceFunctions | PlotHistograms | PlotIsodensity.
 
 (* operations on a contour object *)
@@ -72,7 +72,7 @@ Inductive op :=
 Definition may_use_rng (e : entry) : bool :=
   match e with
   | MarginalIcdf | DrawSample | EmpiricalCdf | HDCDefaultGrid | AndC | OrC | PlotMarginalQuantiles
-  | IFORM (* TransformedModel: marginal_icdf by Monte Carlo *) => true
+  | IFORMMonteCarlo (* IFORM on a TransformedModel: marginal_icdf by Monte Carlo *) => true
   | _ => false
   end.
 Definition plots (e : entry) : bool :=
